@@ -27,6 +27,7 @@ import (
 
 	orbitertypes "github.com/noble-assets/orbiter/v2/types"
 	adaptertypes "github.com/noble-assets/orbiter/v2/types/component/adapter"
+	dispatchercomp "github.com/noble-assets/orbiter/v2/keeper/component/dispatcher"
 	dispatchertypes "github.com/noble-assets/orbiter/v2/types/component/dispatcher"
 	executortypes "github.com/noble-assets/orbiter/v2/types/component/executor"
 	forwardertypes "github.com/noble-assets/orbiter/v2/types/component/forwarder"
@@ -103,6 +104,7 @@ func cntLine(c *dispatchertypes.DispatchCountEntry) string {
 // ---------------- C13 ----------------
 
 func (s *Sim) auditQueries(r *Rng) {
+	s.queryFaultPass(r)
 	g := s.N.App.OrbiterKeeper.ExportGenesis(s.N.Ctx())
 	amts, cnts := g.DispatcherGenesis.DispatchedAmounts, g.DispatcherGenesis.DispatchedCounts
 	if len(amts) >= 3 {
@@ -1210,4 +1212,121 @@ func (s *Sim) pauseCovers(paused sdk.Context, proto string, dom uint32, sid stri
 	if deliver(paused) {
 		s.violate("C20", "pause-covers-what-it-names", "paused id does not stop transfers to that domain"+tag, fmt.Sprintf("after a successful pause of %s %q%s a transfer to domain %d still succeeds", proto, sid, tag, dom))
 	}
+}
+
+// queryFaultPass (mode B): the statistics queries under failures of the orbiter's own store. Every listing and one
+// direct lookup are first answered fault-free by the interposed keeper's query server; then every store call of the
+// query fails once. A view is faithful or absent: the query may fail (or abort), but when it answers, the answer is
+// the fault-free one - never a page with entries silently left out, repeated or replaced.
+func (s *Sim) queryFaultPass(r *Rng) {
+	if s.ModeB == nil {
+		return
+	}
+	qs := dispatchercomp.NewQueryServer(s.ModeB.K.Dispatcher())
+	type q struct {
+		name string
+		run  func(ctx sdk.Context) (string, error)
+	}
+	var qsList []q
+	page := func() *query.PageRequest { return &query.PageRequest{Limit: 200, CountTotal: true} }
+	for _, pid := range []string{"PROTOCOL_IBC", "PROTOCOL_CCTP", "PROTOCOL_HYPERLANE", "PROTOCOL_INTERNAL"} {
+		pid := pid
+		qsList = append(qsList,
+			q{"DispatchedCountsByDestinationProtocolID(" + pid + ")", func(ctx sdk.Context) (string, error) {
+				resp, err := qs.DispatchedCountsByDestinationProtocolID(ctx, &dispatchertypes.QueryDispatchedCountsByProtocolIDRequest{ProtocolId: pid, Pagination: page()})
+				if err != nil {
+					return "", err
+				}
+				return resp.String(), nil
+			}},
+			q{"DispatchedCountsBySourceProtocolID(" + pid + ")", func(ctx sdk.Context) (string, error) {
+				resp, err := qs.DispatchedCountsBySourceProtocolID(ctx, &dispatchertypes.QueryDispatchedCountsByProtocolIDRequest{ProtocolId: pid, Pagination: page()})
+				if err != nil {
+					return "", err
+				}
+				return resp.String(), nil
+			}},
+			q{"DispatchedAmountsByDestinationProtocolID(" + pid + ")", func(ctx sdk.Context) (string, error) {
+				resp, err := qs.DispatchedAmountsByDestinationProtocolID(ctx, &dispatchertypes.QueryDispatchedAmountsByProtocolIDRequest{ProtocolId: pid, Pagination: page()})
+				if err != nil {
+					return "", err
+				}
+				return resp.String(), nil
+			}},
+			q{"DispatchedAmountsBySourceProtocolID(" + pid + ")", func(ctx sdk.Context) (string, error) {
+				resp, err := qs.DispatchedAmountsBySourceProtocolID(ctx, &dispatchertypes.QueryDispatchedAmountsByProtocolIDRequest{ProtocolId: pid, Pagination: page()})
+				if err != nil {
+					return "", err
+				}
+				return resp.String(), nil
+			}})
+	}
+	g := s.N.App.OrbiterKeeper.ExportGenesis(s.N.Ctx())
+	if cs := g.DispatcherGenesis.DispatchedCounts; len(cs) > 0 {
+		c := cs[r.Intn(len(cs))]
+		qsList = append(qsList, q{"DispatchedCounts(direct)", func(ctx sdk.Context) (string, error) {
+			resp, err := qs.DispatchedCounts(ctx, &dispatchertypes.QueryDispatchedCountsRequest{SourceProtocolId: c.SourceId.ProtocolId.String(), SourceCounterpartyId: c.SourceId.CounterpartyId, DestinationProtocolId: c.DestinationId.ProtocolId.String(), DestinationCounterpartyId: c.DestinationId.CounterpartyId})
+			if err != nil {
+				return "", err
+			}
+			return resp.String(), nil
+		}})
+	}
+	p := s.ModeB.Plan
+	defer func() { p.Store = false; s.ModeB.Reset(nil) }()
+	call := func(f func(ctx sdk.Context) (string, error), fail map[int]int) (out string, err error, calls []CallRec, fired int) {
+		s.ModeB.Reset(fail)
+		p.Store = true
+		func() {
+			defer func() {
+				if rec := recover(); rec != nil {
+					err = fmt.Errorf("query aborted: %v", rec) // baseapp recovers a panicking query handler: the view is absent
+				}
+			}()
+			out, err = f(s.N.Branch())
+		}()
+		calls, fired = append([]CallRec(nil), p.Calls...), len(p.Fired)
+		p.Store = false
+		s.ModeB.Reset(nil)
+		return
+	}
+	for _, qq := range qsList {
+		want, err0, calls, _ := call(qq.run, nil)
+		if err0 != nil {
+			continue // refused fault-free (e.g. a protocol that cannot be a source): nothing to compare
+		}
+		idxs := make([]int, 0, len(calls))
+		for i, c := range calls {
+			if strings.HasPrefix(c.Site, "store.") {
+				idxs = append(idxs, i)
+			}
+		}
+		for len(idxs) > 24 { // long listings: a drawn subset of their store calls
+			k := r.Intn(len(idxs))
+			idxs = append(idxs[:k], idxs[k+1:]...)
+		}
+		for _, i := range idxs {
+			got, err, fcalls, fired := call(qq.run, map[int]int{i: faultBefore})
+			if fired == 0 {
+				continue
+			}
+			s.Stats.Count("rule:C13.faithful-or-absent-under-store-fault")
+			s.Stats.Fault("injected_error:" + storeOp2(calls[i].Site) + " (query)")
+			if err == nil && got != want {
+				site := "?"
+				if i < len(fcalls) {
+					site = occurrence(fcalls, i)
+				}
+				s.violate("C13", "listing-and-pagination", "wrong-answer-instead-of-error-under-store-fault method="+strings.SplitN(qq.name, "(", 2)[0],
+					fmt.Sprintf("%s: store call %s failed during the query and it answered\n  %s\ninstead of failing or answering\n  %s", qq.name, site, got, want))
+			}
+		}
+	}
+}
+
+func storeOp2(site string) string {
+	if i := strings.Index(site, "@"); i >= 0 {
+		return site[:i]
+	}
+	return site
 }
